@@ -12,6 +12,7 @@ from mc import c10
 from mc import canon
 from mc import core
 from vfx import nodes as N
+from vfx.pd import common as pd_common
 
 PROP = 'C13'
 LEVEL = 'model_checking'
@@ -103,6 +104,12 @@ def check_diff(old, diff, res, case, label):
       stage = 'run'
       ns['fiddler'](target)
     except Exception as e:  # pylint: disable=broad-except
+      if stage == 'generate' and isinstance(e, ValueError) and (
+          'no registered converter' in str(e)) and 'OrderedDict' in str(e):
+        # a value of a type the code generator has no expression for is
+        # refused (loudly), not emitted inexactly
+        res.counters['rejected:value-type-without-converter'] += 1
+        continue
       res.violation(
           f'C13/fiddler-{stage}-raises/{type(e).__name__}/'
           f'shared{min(nshared, 2)}/{"old" if supply_old else "noold"}',
@@ -113,12 +120,53 @@ def check_diff(old, diff, res, case, label):
     res.outcomes[f'{label}:{naming}:{supply_old}:shared{min(nshared, 2)}'] += 1
     got = canon.canon_cfg(target)
     if got != want:
+      if _removed_annotation_tag(diff) and canon.canon_cfg(
+          target, tags=False) == canon.canon_cfg(ref, tags=False):
+        res.violation(
+            'C13/fiddler-result-differs-from-apply_diff/annotation-tag-'
+            f'removed-in-new-value/{"old" if supply_old else "noold"}',
+            f'{case} naming={naming}: apply_diff gives {ref!r}\n fiddler '
+            f'gives {target!r}\n code:\n{code}',
+            dict(case, naming=naming, old_supplied=supply_old))
+        continue
       res.violation(
           f'C13/fiddler-result-differs-from-apply_diff/shared'
           f'{min(nshared, 2)}/{"old" if supply_old else "noold"}',
           f'{case} naming={naming} old_supplied={supply_old}: apply_diff '
           f'gives {ref!r}\n fiddler gives {target!r}\n code:\n{code}',
           dict(case, naming=naming, old_supplied=supply_old))
+
+
+def _removed_annotation_tag(diff):
+  """Does a new value of the diff configure a callable one of whose
+  annotation tags is absent from the configuration's tag sets?"""
+  from fiddle._src import tag_type  # pylint: disable=g-import-not-at-top
+  found = [False]
+
+  def walk(v):
+    if isinstance(v, fdl.Buildable):
+      try:
+        ann = tag_type.find_tags_from_annotations(v.__fn_or_cls__)
+      except Exception:  # pylint: disable=broad-except
+        ann = {}
+      for name, tags in ann.items():
+        if not set(tags) <= set(v.__argument_tags__.get(name, ())):
+          found[0] = True
+      for a in v.__arguments__.values():
+        walk(a)
+    elif isinstance(v, (list, tuple)):
+      for a in v:
+        walk(a)
+    elif isinstance(v, dict):
+      for a in v.values():
+        walk(a)
+
+  for c in diff.changes:
+    if hasattr(c, 'new_value'):
+      walk(c.new_value)
+  for v in diff.new_shared_values:
+    walk(v)
+  return found[0]
 
 
 def check_pair(old_mk, new_mk, res, case, label):
@@ -209,6 +257,8 @@ def handmade():
   # class, classmethod) and new values with left-over empty tag sets
   for cname, c in (('nested-class', N.Outer.Inner),
                    ('classmethod', N.MakerSub.make),
+                   ('far-classmethod', pd_common.MakerFar.make),
+                   ('dotted-import-module', pd_common.Widget),
                    ('enum-leaf', N.node)):
     out.append((f'shared-{cname}', old(), diffing.Diff(
         changes=(diffing.ModifyValue((A('x'),), R('new_shared_values',
@@ -233,6 +283,22 @@ def handmade():
                diffing.SetValue((A('y'), K('n')), R('new_shared_values',
                                                    (I(0),)))),
       new_shared_values=(untagged_again(),))))
+  # the changes of one parent interleaved with those of another parent,
+  # where the per-parent order (deletes, callable, assignments) matters
+  def two_parents():
+    return fdl.Config(N.node_kw, first=fdl.Config(N.node, x=1, y=2),
+                      second=fdl.Config(N.node_b, x=3))
+  B = daglish.BuildableFnOrCls
+  for order in itertools.permutations(range(4)):
+    chg = [diffing.SetValue((A('first'), A('x')), 'set-on-new-callable'),
+           diffing.ModifyValue((A('second'), A('x')), 'other-parent'),
+           diffing.ModifyValue((A('first'), B()), N.only_x),
+           diffing.DeleteValue((A('first'), A('y')))]
+    chg[0] = diffing.ModifyValue((A('first'), A('x')), 'set-on-new-callable')
+    out.append((f'interleaved-parents-{"".join(map(str, order))}',
+                two_parents(),
+                diffing.Diff(changes=tuple(chg[i] for i in order),
+                             new_shared_values=())))
   # tag operations and callable update with argument deletion
   t = old()
   fdl.add_tag(t, 'x', N.TagA)
